@@ -62,9 +62,10 @@ inductive Ref where
 deriving DecidableEq, Repr
 
 /-- Tag of an asynchronous completion: `p<slot>` slow POST, `q<n>` other request, `d<n>` DELETE,
-`c<n>` server-side close, `r<slot>` (model-internal: handler of an abandoned POST). -/
+`c<n>` server-side close, `r<slot>` (model-internal: handler of an abandoned POST), `u<n>` the n-th POST
+whose body arrives in pieces (`postb`). -/
 inductive Tag where
-  | p (n : Nat) | q (n : Nat) | d (n : Nat) | c (n : Nat) | r (n : Nat)
+  | p (n : Nat) | q (n : Nat) | d (n : Nat) | c (n : Nat) | r (n : Nat) | u (n : Nat)
   | raw (str : String)
 deriving DecidableEq, Repr
 
@@ -79,6 +80,8 @@ inductive Op where
   | tick (ms : Nat)
   | fault (f : Faults)
   | close (ref : Ref)
+  | postb (ref : Ref) (u : UserTok)   -- the HEADERS of a POST (a `ping`) arrive; its body follows in pieces
+  | body (n : Nat) (fin : Bool)       -- a piece of the body of the n-th such POST arrives; `fin`: the last one
 deriving DecidableEq, Repr
 
 /-- JSON-RPC method of a handler invocation (only rendered, never judged). -/
@@ -87,7 +90,7 @@ inductive Method where
   | raw (str : String)
 deriving DecidableEq, Repr
 
-/-- One entry of `h.sessions` as printed: `<name>[!key]/<owner>/r<refs>/t<0|1>/c<0|1>`. -/
+/-- One entry of `h.sessions` as printed: `<name>[!key]/<owner>/r<refs>/t<0|1>/c<0|1>/h<handlers in flight>`. -/
 structure MapEnt where
   name : Name
   badKey : Bool := false     -- the table key differs from the id of the session stored under it
@@ -95,6 +98,7 @@ structure MapEnt where
   refs : Nat := 0
   timer : Bool := false
   closing : Bool := false
+  busy : Nat := 0            -- request handlers of the session that have been entered and have not returned
 deriving DecidableEq, Repr
 
 /-- One handler invocation: `<session>/<user>/<method>`. -/
@@ -113,6 +117,7 @@ structure Obs where
   map : List MapEnt := []            -- `h.sessions`
   srv : List Name := []              -- `Server.Sessions()`
   log : List LogEnt := []            -- handler invocations during this operation
+  stale : List Name := []            -- sessions that have left `h.sessions` whose idle timer is armed
 deriving DecidableEq, Repr
 
 /-! ### reading operations -/
